@@ -225,6 +225,7 @@ package parse
 //@ extern encoding/base64.(*Encoding).DecodedLen
 //@   ensures[S] result >= 0
 //@ extern encoding/base64.(*Encoding).Decode
+//@   readonly #0 #2
 //@   ensures[S] 0 <= n && n <= len(dst)
 //@ extern unicode/utf8.RuneLen
 //@   ensures[S] -1 <= result && result <= 4 && result != 0
@@ -547,3 +548,6 @@ package parse
 //@ func binaryReaderReaderAt.Len
 //@   assumefacet F
 //@   requires[S] r != nil && r.size >= 0 && smallInt(r.size)
+//@ iface io.Writer.Write
+//@   readonly arg0
+//@   ensures[S] true
